@@ -475,7 +475,11 @@ def program_equivalence(prog1, prog2, compare_params=True, atol=1e-6, rtol=0):
             nx.set_node_attributes(circuit[-1], parameter_mapping, name="p")
 
         # add node attributes to store the operation name
-        name_mapping = {i: n.op.__class__.__name__ for i, n in enumerate(G.nodes())}
+        # a gate and its formal inverse (dagger flag set) are different operations
+        name_mapping = {
+            i: n.op.__class__.__name__ + (".H" if getattr(n.op, "dagger", False) else "")
+            for i, n in enumerate(G.nodes())
+        }
         nx.set_node_attributes(circuit[-1], name_mapping, name="name")
 
     def node_match(n1, n2):
@@ -485,8 +489,10 @@ def program_equivalence(prog1, prog2, compare_params=True, atol=1e-6, rtol=0):
         wire_match = n1["w"] == n2["w"]
 
         if compare_params:
-            p_match = np.allclose(n1["p"], n2["p"], atol=atol, rtol=rtol)
-            return name_match and p_match and wire_match
+            # parameter lists of different operations need not have the same shape
+            if not (name_match and wire_match):
+                return False
+            return np.allclose(n1["p"], n2["p"], atol=atol, rtol=rtol)
 
         return name_match and wire_match
 
